@@ -331,3 +331,29 @@ Theorem C01_symmetric_pipeline_stationary : forall H nv L beta,
         (pipeline_cfg_v (update_cfg (met_update H beta))).
 Proof. intros H nv L beta Hs. exact (metropolis_pipeline_v_stationary H Hs nv L beta). Qed.
 Print Assumptions C01_symmetric_pipeline_stationary.
+
+(* THE HEADLINE FOR THE MODEL'S OWN PIPELINE (Proofs/DecomposeProofs.v + Proofs/UnconditionalPipeline.v): the cluster
+   decomposition is proved to produce only labellings the validators accept, so the validation wrapper is no
+   longer needed: [pipeline_cfg] — the term proved equal to the model of QmcIsingGraph::timestep
+   (C01_timestep_is_pipeline) and replayed against the implementation on raw RNG words — leaves the SSE weight
+   stationary on the space of ALL consistent legal configurations, for every Ising model without longitudinal
+   field whose edges name existing spins, every beta > 0 and every cutoff. *)
+From QmcV Require Import Proofs.UnconditionalPipeline.
+Theorem C01_ising_model_pipeline_stationary : forall g beta L,
+  has_long g = false -> ising_edges_ok g = true -> 0 < beta -> (0 < ising_nbonds g)%nat ->
+  forall f : cfg -> Q,
+    Qsum (map (fun x => sse_weight (ising_ham g) beta (snd x)
+                        * expect (pipeline_cfg (update_cfg (met_update (ising_ham g) beta)) x) f)
+              (canon (ising_ham g) (all_substates (i_nvars g)) L))
+    == Qsum (map (fun x => sse_weight (ising_ham g) beta (snd x) * f x)
+                 (canon (ising_ham g) (all_substates (i_nvars g)) L)).
+Proof. exact ising_model_pipeline_stationary. Qed.
+Print Assumptions C01_ising_model_pipeline_stationary.
+
+(* the validated stage and the model's cluster update have the same law wherever the operators' variables are
+   in range (if the decomposition returns nothing both leave the configuration alone) *)
+Theorem C01_validated_stage_has_model_law : forall c (f : cfg -> Q),
+  vars_in_range (length (fst c)) (snd c) = true ->
+  expect (cluster_cfg_v c) f == expect (cluster_cfg c) f.
+Proof. exact cluster_cfg_v_is_cluster_cfg. Qed.
+Print Assumptions C01_validated_stage_has_model_law.
